@@ -99,14 +99,16 @@ def exc_name(e):
     return {"ValueError": "value-error", "IndexError": "index-error"}.get(type(e).__name__, "exc:" + type(e).__name__)
 
 
-def run_real(case):
-    """build the real GeoIndex + query; returns dict with everything observed"""
+NP_DTYPES = {"float64": np.float64, "float32": np.float32, "int": np.int64}
+
+
+def build_real(case):
+    """construct the real GeoIndex (seeded / forced shuffle); returns dict(ix, proxy, shuffler, tree_data) or init_error"""
     import numpy.random
     from typhon.geographical import GeoIndex
-    blat = np.array(case["blat"], dtype=float)
-    blon = np.array(case["blon"], dtype=float)
-    qlat = np.array(case["qlat"], dtype=float)
-    qlon = np.array(case["qlon"], dtype=float)
+    dt = NP_DTYPES[case.get("dtype", "float64")]
+    blat = np.array(case["blat"]).astype(dt)
+    blon = np.array(case["blon"]).astype(dt)
     kw = {}
     if case.get("leaf_size") is not None:
         kw["leaf_size"] = case["leaf_size"]
@@ -129,22 +131,32 @@ def run_real(case):
         numpy.random.shuffle = orig
     out["shuffler"] = None if ix.shuffler is None else [int(x) for x in ix.shuffler]
     out["tree_data"] = np.asarray(ix.tree.data).copy()
-    out["tree_type"] = type(ix.tree).__name__
-    proxy = TreeProxy(ix.tree)
-    ix.tree = proxy
-    r = case["r"]
+    out["proxy"] = TreeProxy(ix.tree)
+    ix.tree = out["proxy"]
+    out["ix"] = ix
+    return out
+
+
+def query_real(built, case, q):
+    """one query on the already built index; q = dict(r, return_distance, r_np)"""
+    dt = NP_DTYPES[case.get("dtype", "float64")]
+    qlat = np.array(case["qlat"]).astype(dt)
+    qlon = np.array(case["qlon"]).astype(dt)
+    r = q["r"]
+    if q.get("r_np"):
+        r = getattr(np, q["r_np"])(r)
+    out = {"shuffler": built["shuffler"], "tree_data": built["tree_data"]}
+    n0 = len(built["proxy"].calls)
     try:
-        if case.get("return_distance", True):
-            pairs, dist = ix.query(qlat, qlon, r)
+        if q.get("return_distance", True):
+            pairs, dist = built["ix"].query(qlat, qlon, r)
         else:
-            pairs, dist = ix.query(qlat, qlon, r, return_distance=False), None
+            pairs, dist = built["ix"].query(qlat, qlon, r, return_distance=False), None
     except Exception as e:
         out["error"] = exc_name(e)
-        out["calls"] = proxy.calls
+        out["calls"] = built["proxy"].calls[n0:]
         return out
-    out["pairs"] = pairs
-    out["dist"] = dist
-    out["calls"] = proxy.calls
+    out["pairs"], out["dist"], out["calls"] = pairs, dist, built["proxy"].calls[n0:]
     return out
 
 
@@ -163,124 +175,162 @@ def expected_shuffler(case, n):
 # ---------------------------------------------------------------- one case
 def classify(case, what=""):
     if isinstance(case.get("r"), str):
-        t = true_km(case["r"])
         unit = case["r"].strip().lstrip("+-0123456789.eE_ ").strip()
         if unit in ("cm", "centimeter", "centimeters"):
             return "geoindex-units-centimeter"
     return "other"
 
 
-def model_lines(case, real):
-    """protocol lines for this case (needs the recorded tree call)"""
+def model_lines(case, q, real):
+    """protocol lines for one query (needs the recorded tree call)"""
     m = {"minkowski": "mink", None: "mink", "haversine": "hav"}.get(case["metric"], "unk")
     call = real["calls"][0]
     n = len(case["blat"])
     sh = real["shuffler"]
     s = "-" if sh is None else ",".join(map(str, sh))
-    wd = case.get("return_distance", True)
+    wd = q.get("return_distance", True)
     if wd:
         J, D = call["res"]
     else:
         J, D = call["res"], None
     rows = ["-" if len(j) == 0 else ",".join(str(int(x)) for x in j) for j in J]
-    line = f"{'query' if wd else 'querynd'} {m} {n} {s} {len(rows)} " + " ".join(rows)
+    if wd and isinstance(q["r"], str):
+        head = f"queryarg {m} {n} {s} {len(rows)} " + (q["r"].encode().hex() or "-") + " "
+    else:
+        head = f"{'query' if wd else 'querynd'} {m} {n} {s} {len(rows)} "
+    line = head + " ".join(rows)
     if wd:
         line += " " + " ".join("-" if len(d) == 0 else ",".join(str(bits(x)) for x in d) for d in D)
     return [line]
 
 
-def check_case(ck, case, use_model=True, lines_out=None):
-    """real code + oracle (+ queue the model line).  Returns a closure that compares the
-    model output once the driver ran, or None."""
+def oracle_chunks(case, metric, R, nq_chunk):
+    """yields (q0, dmat, ang) for blocks of query points (longdouble, km)"""
+    m = len(case["qlat"])
+    for q0 in range(0, m, nq_chunk):
+        dm, ang = oracle_matrix(case["blat"], case["blon"], case["qlat"][q0:q0 + nq_chunk], case["qlon"][q0:q0 + nq_chunk], metric, R)
+        yield q0, dm, ang
+
+
+def pair_distances(case, pairs, metric, R):
+    """longdouble distances (km) and central angles of the given (build, query) pairs"""
+    if not pairs:
+        return np.zeros(0, dtype=LD), np.zeros(0, dtype=LD)
+    bi = np.array([p[0] for p in pairs])
+    qi = np.array([p[1] for p in pairs])
+    u = unit_vectors(np.array(case["blat"], dtype=float)[bi], np.array(case["blon"], dtype=float)[bi])
+    v = unit_vectors(np.array(case["qlat"], dtype=float)[qi], np.array(case["qlon"], dtype=float)[qi])
+    dm = np.sqrt(((u - v) ** 2).sum(-1))
+    dp = np.sqrt(((u + v) ** 2).sum(-1))
+    ang = 2 * np.arctan2(dm, dp)
+    return (ang if metric == "haversine" else dm) * LD(R) / LD(1000), ang
+
+
+def judge(ck, case, q, real, use_model, qk):
+    """oracle on one query result (+ model lines).  Returns (lines, compare) or None."""
     from typhon.geographical import to_kilometers
     R = earth_radius()
     n, m = len(case["blat"]), len(case["qlat"])
-    real = run_real(case)
     metric = case["metric"] or "minkowski"
     slim = {k: case[k] for k in case}
-    tkm = true_km(case["r"])
-    kind = f"{metric}/{case['tree_class'] or 'Ball'}/{'shuf' if case['shuffle'] else 'noshuf'}" \
-           f"{'/perm' if case.get('perm') is not None else ''}{'/str' if isinstance(case['r'], str) else ''}" \
-           f"{'' if case.get('return_distance', True) else '/nodist'}"
-    if "init_error" in real or "error" in real:
-        err = real.get("init_error") or real.get("error")
+    f32 = case.get("dtype") == "float32"
+    tkm = true_km(q["r"])
+    wd = q.get("return_distance", True)
+    kind = f"{metric}/{case['tree_class'] or 'Ball'}{'/big' if n * m > 2000000 else ''}"
+    for flag, on in (("shuffle", case["shuffle"]), ("forced-permutation", case.get("perm") is not None),
+                     ("radius-string", isinstance(q["r"], str)), ("radius-numpy-scalar", bool(q.get("r_np"))),
+                     ("return_distance=False", not wd), ("dtype-" + case.get("dtype", "float64"), True),
+                     ("re-query-same-index", qk > 0)):
+        if on:
+            ck.count("flag/" + flag)
+    if "error" in real:
+        err = real["error"]
         if tkm is not None and tkm != 0:
-            ck.violation(classify(case), f"GeoIndex raised {err} for a valid input (r={case['r']!r})", slim)
+            ck.violation(classify(dict(case, r=q["r"])), f"GeoIndex.query raised {err} for a valid input (r={q['r']!r})", slim)
         ck.case(kind=kind + "/error")
-        if use_model and isinstance(case["r"], str) and "init_error" not in real:
-            # the model must reject the same radius string
+        if use_model and isinstance(q["r"], str):
             def cmp_err(out, err=err):
                 if out[0] != err:
-                    ck.disagree(f"to_kilometers({case['r']!r}): model {out[0]} vs code {err}", slim)
-            return (["km " + (case["r"].encode().hex() or "-")], cmp_err)
+                    ck.disagree(f"to_kilometers({q['r']!r}): model {out[0]} vs code {err}", slim)
+            return (["km " + (q["r"].encode().hex() or "-")], cmp_err)
         return None
     pairs, dist = real["pairs"], real["dist"]
-    # ---- canonical form of the real answer
     if pairs.size == 0:
-        got = []
-        gd = []
+        got, gd = [], []
     else:
         if pairs.ndim != 2 or pairs.shape[0] != 2:
             ck.violation("other", f"pairs has shape {pairs.shape}", slim)
             return None
-        got = [(int(a), int(b)) for a, b in zip(pairs[0], pairs[1])]
+        got = list(zip(pairs[0].astype(int).tolist(), pairs[1].astype(int).tolist()))
         if dist is not None and (not isinstance(dist, np.ndarray) or dist.ndim != 1 or dist.dtype.kind != "f"):
             ck.violation(classify(case), f"distances is not a 1-d float array: {dist!r}"[:200], slim)
             return None
         gd = None if dist is None else [float(x) for x in dist]
-    # ---- oracle
     if tkm is not None:
         rk = LD(tkm.numerator) / LD(tkm.denominator)
-        dmat, ang = oracle_matrix(case["blat"], case["blon"], case["qlat"], case["qlon"], metric, R)
-        margin = rk * LD(1e-7) + LD(2e-11)
-        must = {(int(i), int(q)) for i, q in zip(*np.nonzero(dmat < rk - margin))}
-        # r = 0 with exact duplicates: distance is exactly 0 in any arithmetic
-        if rk == 0:
-            must = {(i, q) for i in range(n) for q in range(m)
-                    if case["blat"][i] == case["qlat"][q] and case["blon"][i] == case["qlon"][q]}
-        mustnot = {(int(i), int(q)) for i, q in zip(*np.nonzero(dmat > rk + margin))}
+        margin = rk * LD(1e-7) + LD(2e-11) if not f32 else rk * LD(1e-5) + LD(0.005)
+        must = set()
+        nfar = 0
+        if rk == 0:     # exact duplicates: distance is exactly 0 in any arithmetic
+            must = {(i, k) for i in range(n) for k in range(m)
+                    if case["blat"][i] == case["qlat"][k] and case["blon"][i] == case["qlon"][k]}
+            nfar = 1
+        else:
+            for q0, dm, _ in oracle_chunks(case, metric, R, max(1, 1000000 // max(n, 1))):
+                ii, kk = np.nonzero(dm < rk - margin)
+                must.update(zip(ii.tolist(), (kk + q0).tolist()))
+                nfar += int((dm > rk + margin).sum())
         gs = set(got)
-        nontriv = len(must) > 0 and len(mustnot) > 0
-        ck.case(key=json.dumps([case["blat"][:6], case["qlat"][:3], str(case["r"]), case.get("perm"), case["seed"]]) if nontriv else None,
-                kind=kind, sample={"n": n, "m": m, "r": case["r"], "metric": metric, "hits": len(got),
+        nontriv = len(must) > 0 and nfar > 0
+        ck.case(key=json.dumps([case["blat"][:6], case["qlat"][:3], str(q["r"]), case.get("perm"), case["seed"], qk]) if nontriv else None,
+                kind=kind, sample={"n": n, "m": m, "r": q["r"], "metric": metric, "hits": len(got),
                                    "shuffler": (real["shuffler"] or [])[:6]})
         if len(gs) != len(got):
-            dup = [p for p in gs if got.count(p) > 1][:3]
-            ck.violation(classify(case), f"pairs reported more than once: {dup}", slim)
-        bad = [p for p in gs if not (0 <= p[0] < n and 0 <= p[1] < m)]
+            seen, dup = set(), []
+            for pr in got:
+                if pr in seen:
+                    dup.append(pr)
+                seen.add(pr)
+            ck.violation(classify(case), f"pairs reported more than once: {dup[:3]}", slim)
+        bad = [pr for pr in gs if not (0 <= pr[0] < n and 0 <= pr[1] < m)]
         if bad:
-            ck.violation(classify(case), f"indices out of range: {bad[:3]}", slim)
+            ck.violation(classify(case), f"indices out of range: {sorted(bad)[:3]}", slim)
         missing = sorted(must - gs)
-        extra = sorted(gs & mustnot)
         if missing:
-            i, q = missing[0]
-            ck.violation(classify(case), f"pair (build {i}, query {q}) at {float(dmat[i, q]):.9g} km <= r={case['r']!r} is missing "
-                                         f"({len(missing)} missing)", slim)
-        if extra:
-            i, q = extra[0]
-            ck.violation(classify(case), f"pair (build {i}, query {q}) at {float(dmat[i, q]):.9g} km > r={case['r']!r} was reported "
-                                         f"({len(extra)} extra)", slim)
-        if gd is not None and not bad:
-            if len(gd) != len(got):
-                ck.violation(classify(case), f"{len(got)} pairs but {len(gd)} distances", slim)
-            else:
-                for (i, q), d in zip(got, gd):
-                    want = float(dmat[i, q])
-                    tol = 1e-7 * want + 1e-10 + (1e-3 if (metric == "haversine" and float(ang[i, q]) > 3.1) else 0.0)
-                    if not abs(d - want) <= tol:
-                        ck.violation(classify(case), f"distance of pair (build {i}, query {q}) reported {d!r} km, is {want!r} km", slim)
-                        break
+            dmiss, _ = pair_distances(case, missing[:1], metric, R)
+            i, k = missing[0]
+            ck.violation(classify(dict(case, r=q["r"])), f"pair (build {i}, query {k}) at {float(dmiss[0]):.9g} km <= r={q['r']!r} is missing "
+                                                      f"({len(missing)} missing)", slim)
+        if not bad:
+            dgot, agot = pair_distances(case, got, metric, R)
+            far = np.nonzero(dgot > rk + margin)[0]
+            if len(far) and rk != 0:
+                i, k = got[int(far[0])]
+                ck.violation(classify(dict(case, r=q["r"])), f"pair (build {i}, query {k}) at {float(dgot[int(far[0])]):.9g} km > r={q['r']!r} was reported "
+                                                          f"({len(far)} extra)", slim)
+            if gd is not None:
+                if len(gd) != len(got):
+                    ck.violation(classify(case), f"{len(got)} pairs but {len(gd)} distances", slim)
+                elif got:
+                    want = dgot.astype(float)
+                    tol = 1e-7 * want + 1e-10 + np.where((metric == "haversine") & (agot.astype(float) > 3.1), 1e-3, 0.0) \
+                        + (0.005 if f32 else 0.0)
+                    off = np.nonzero(~(np.abs(np.array(gd) - want) <= tol))[0]
+                    if len(off):
+                        j = int(off[0])
+                        ck.violation(classify(case), f"distance of pair (build {got[j][0]}, query {got[j][1]}) reported {gd[j]!r} km, "
+                                                     f"is {float(want[j])!r} km", slim)
     else:
         ck.case(kind=kind + "/unjudged")
     if not use_model or not real["calls"]:
         return None
     # ---- model side
-    lines = model_lines(case, real)
+    lines = model_lines(case, q, real)
     mm = {"minkowski": "mink", None: "mink", "haversine": "hav"}[case["metric"]]
-    rkm_real = float(to_kilometers(case["r"]))
+    rkm_real = float(to_kilometers(q["r"]))
     lines.append(f"radius {mm} {bits(rkm_real)}")
-    if isinstance(case["r"], str):
-        lines.append("km " + (case["r"].encode().hex() or "-"))
+    if isinstance(q["r"], str):
+        lines.append("km " + (q["r"].encode().hex() or "-"))
     exp_sh = expected_shuffler(case, n)
 
     def compare(out):
@@ -293,33 +343,67 @@ def check_case(ck, case, use_model=True, lines_out=None):
         tp = [] if o[1] == "-" else [int(x) for x in o[1].split(",")]
         # the tree was built from the rows the model says (compare coordinates)
         if metric == "minkowski":
-            uv = unit_vectors(np.array(case["blat"])[tp], np.array(case["blon"])[tp]) * LD(R)
-            okrows = real["tree_data"].shape == (n, 3) and np.all(np.abs(real["tree_data"] - uv.astype(float)) < 1e-5)
+            uv = unit_vectors(np.array(case["blat"], dtype=float)[tp], np.array(case["blon"], dtype=float)[tp]) * LD(R)
+            okrows = real["tree_data"].shape == (n, 3) and np.all(np.abs(real["tree_data"] - uv.astype(float)) < (5.0 if f32 else 1e-5))
         else:
-            rad = np.deg2rad(np.column_stack([np.array(case["blat"])[tp], np.array(case["blon"])[tp]]))
-            okrows = real["tree_data"].shape == (n, 2) and np.all(np.abs(real["tree_data"] - rad) < 1e-12)
+            rad = np.deg2rad(np.column_stack([np.array(case["blat"], dtype=float)[tp], np.array(case["blon"], dtype=float)[tp]]))
+            okrows = real["tree_data"].shape == (n, 2) and np.all(np.abs(real["tree_data"] - rad) < (1e-6 if f32 else 1e-12))
         if not okrows:
             ck.disagree("tree rows are not points[shuffler] as in the model", slim)
         items = [] if o[2] == "-" else o[2:]
+        mp = [tuple(int(x) for x in it.split(":")) for it in items]
         if gd is not None:
-            mp = [tuple(int(x) for x in it.split(":")) for it in items]
             code = [(a, b, bits(d)) for (a, b), d in zip(got, gd)]
+            unb = lambda t: (t[0], t[1], struct.unpack("<d", struct.pack("<Q", t[2]))[0])
+            ms, cs = sorted(map(unb, mp)), sorted(map(unb, code))
+            same = len(ms) == len(cs) and all(x[:2] == y[:2] and abs(x[2] - y[2]) <= 1e-12 * max(1.0, abs(y[2])) for x, y in zip(ms, cs))
         else:
-            mp = [tuple(int(x) for x in it.split(":")) for it in items]
             code = got
-        if mp != code:
-            k = next((k for k, (x, y) in enumerate(zip(mp, code)) if x != y), min(len(mp), len(code)))
-            ck.disagree(f"query result differs at position {k}: model {mp[k:k + 2]} vs code {code[k:k + 2]} "
-                        f"(lengths {len(mp)}/{len(code)})", slim)
+            ms, cs = sorted(mp), sorted(code)
+            same = ms == cs
+        if not same:        # verdict: the canonicalised observable result (pairs with distances, order-free)
+            k = next((k for k, (x, y) in enumerate(zip(ms, cs)) if x != y), min(len(ms), len(cs)))
+            ck.disagree(f"query result differs: model {ms[k:k + 2]} vs code {cs[k:k + 2]} (counts {len(ms)}/{len(cs)})", slim)
+        else:               # diagnostics only: same order, same bits
+            ck.count("diag/order-and-bits-identical" if mp == code else "diag/order-or-bits-differ")
         if int(out[1]) != bits(real["calls"][0]["r"]):
             ck.disagree(f"radius handed to the tree: model bits {out[1]} vs code {bits(real['calls'][0]['r'])}", slim)
-        if isinstance(case["r"], str):
+        if isinstance(q["r"], str):
             if not out[2].startswith("ok "):
-                ck.disagree(f"to_kilometers({case['r']!r}): model {out[2]} vs code {rkm_real!r}", slim)
+                ck.disagree(f"to_kilometers({q['r']!r}): model {out[2]} vs code {rkm_real!r}", slim)
             else:
-                q = Fraction(out[2][3:])
-                if q == 0 or abs(Fraction(rkm_real) - q) > abs(q) * Fraction(1, 2 ** 50):
-                    ck.disagree(f"to_kilometers({case['r']!r}): model {q} vs code {rkm_real!r}", slim)
+                fr = Fraction(out[2][3:])
+                if fr == 0 or abs(Fraction(rkm_real) - fr) > abs(fr) * Fraction(1, 2 ** 50):
+                    ck.disagree(f"to_kilometers({q['r']!r}): model {fr} vs code {rkm_real!r}", slim)
+    return (lines, compare)
+
+
+def check_case(ck, case, use_model=True):
+    """build the index once, run the case's query and the optional further queries (`more`) on the SAME index"""
+    built = build_real(case)
+    qs = [{"r": case["r"], "return_distance": case.get("return_distance", True), "r_np": case.get("r_np")}] + list(case.get("more", []))
+    if "init_error" in built:
+        tkm = true_km(case["r"])
+        if tkm is not None and tkm != 0:
+            ck.violation(classify(case), f"GeoIndex raised {built['init_error']} for a valid input", dict(case))
+        ck.case(kind="init-error")
+        return None
+    parts = []
+    for k, q in enumerate(qs):
+        real = query_real(built, case, q)
+        r = judge(ck, case, q, real, use_model, k)
+        if r is not None:
+            parts.append(r)
+    if not parts:
+        return None
+    lines, spans = [], []
+    for ls, cb in parts:
+        spans.append((len(lines), len(ls), cb))
+        lines += ls
+
+    def compare(out):
+        for a, n, cb in spans:
+            cb(out[a:a + n])
     return (lines, compare)
 
 
@@ -454,14 +538,53 @@ def gen_case(rng, max_n):
         if rng.random() < 0.2:      # antipodes of build points among the queries
             q += [(-a, (o + 360.0) % 360.0 - 180.0) for a, o in b[:2]]
     rng.shuffle(b)
+    dtype = rng.choice(["float64"] * 8 + ["float32", "int"])
+    if dtype == "float32":          # coordinates as float32 values; radius >= 1 km (float32 geometry is good to ~1 m)
+        b = [(float(np.float32(x)), float(np.float32(y))) for x, y in b]
+        q = [(float(np.float32(x)), float(np.float32(y))) for x, y in q]
+        km = max(km, 1.0)
+    elif dtype == "int":
+        b = [(int(round(x)), int(round(y))) for x, y in b]
+        q = [(int(round(x)), int(round(y))) for x, y in q]
     r = radius_arg(rng, km)
-    if rng.random() < 0.03:
+    if rng.random() < 0.03 and dtype != "float32":
         r = 0
-    return {"blat": [p[0] for p in b], "blon": [p[1] for p in b], "qlat": [p[0] for p in q], "qlon": [p[1] for p in q],
+    case = {"blat": [p[0] for p in b], "blon": [p[1] for p in b], "qlat": [p[0] for p in q], "qlon": [p[1] for p in q],
             "r": r, "metric": metric, "tree_class": tree_class,
             "leaf_size": rng.choice([None, None, 1, 2, 5, 40, 100]),
             "shuffle": rng.random() < 0.8, "seed": rng.randrange(2 ** 31), "perm": None,
-            "return_distance": rng.random() < 0.9}
+            "return_distance": rng.random() < 0.9, "dtype": dtype}
+    if not isinstance(r, str) and r != 0 and rng.random() < 0.15:      # numpy scalar radius
+        if float(r) >= 1 and rng.random() < 0.5:
+            case["r"], case["r_np"] = int(r), rng.choice(["int64", "int32"])
+        else:
+            case["r"], case["r_np"] = float(r), "float64"
+    if rng.random() < 0.3:          # the same index queried again with other radii (no state may leak between queries)
+        case["more"] = [{"r": float(km) * f, "return_distance": rng.random() < 0.8} for f in
+                        rng.sample([0.5, 2.0, 1.0, 10.0], rng.choice([1, 1, 2]))]
+    return case
+
+
+def gen_large_case(rng):
+    """thousands of build AND query points (query counts beyond and not a multiple of 2048), a few hits per query"""
+    R = earth_radius()
+    metric = rng.choice([None, None, "haversine"])
+    n = rng.choice([3000, 5000, 4100])
+    m = rng.choice([2500, 5000, 4097, 3000])
+    km = rng.choice([0.5, 1.0, 2.0])
+    c = (rng.uniform(-70, 70), rng.uniform(-180, 180))
+    spread = km * rng.choice([2.0, 3.0])
+    q = gen_points(rng, m, "cluster", c, spread)
+    b = gen_points(rng, n - 400, "cluster", c, spread)
+    for k in range(400):            # deliberate threshold pairs for query points all over the index range
+        base = q[rng.randrange(m)] if k % 2 else q[m - 1 - (k % 50)]
+        th = angle_for(metric or "minkowski", rng.choice([0.9, 1.1, 0.5]) * km, R)
+        b.append(destination(base[0], base[1], th, rng.uniform(0, 2 * math.pi)))
+    rng.shuffle(b)
+    return {"blat": [p[0] for p in b], "blon": [p[1] for p in b], "qlat": [p[0] for p in q], "qlon": [p[1] for p in q],
+            "r": rng.choice([km, f"{km * 1000} m"]), "metric": metric, "tree_class": rng.choice([None, "KD"]) if metric is None else None,
+            "leaf_size": rng.choice([None, 40, 10]), "shuffle": True, "seed": rng.randrange(2 ** 31), "perm": None,
+            "return_distance": True, "dtype": "float64"}
 
 
 BAD_STRINGS = ["", "km", "0 km", "0.0m", "5 parsec", "5 Km", "5 KM", "five km", "5 k m", "--5 km", "5e km", ".e1km",
@@ -549,10 +672,13 @@ def perm_cases(ck, batch, nmax, sets_per_n):
             ck.count("permutation-exhaustive-sets")
 
 
-def explore(ck, n_cases, max_n, nperm, sets_per_n, use_model=True):
+def explore(ck, n_cases, max_n, nperm, sets_per_n, use_model=True, n_large=3):
     batch = Batch(ck, use_model)
     string_cases(ck, use_model)
     perm_cases(ck, batch, nperm, sets_per_n)
+    for _ in range(n_large):
+        batch.add(gen_large_case(ck.rng))
+        batch.flush()
     for _ in range(n_cases):
         batch.add(gen_case(ck.rng, max_n))
     batch.flush()
@@ -574,7 +700,8 @@ def make_check():
         assumptions=["lat/lon are 1-d numpy arrays with >= 1 point, latitudes in [-90, 90], longitudes in [-180, 180]",
                      "metric='haversine' only with the Ball tree (scikit-learn's KDTree rejects that metric)",
                      "radius strings are ASCII, the numeral lies in the normal double range (no overflow to inf / underflow to 0)",
-                     "pairs closer than 1e-7 (relative) to the threshold may be reported or not (float metric)"])
+                     "pairs closer than 1e-7 (relative) to the threshold may be reported or not (float metric); for float32 "
+                     "coordinates the geometry is only good to ~1 m (margin 5 m)"])
 
 
 def main():
@@ -595,11 +722,12 @@ def main():
         run_corpus_case(ck, batch, c)
     batch.flush()
     thorough = ck.tier == "thorough"
-    explore(ck, ck.budget(400, 3500), 5000 if thorough else 400, 6 if thorough else 5, 3 if thorough else 2, use_model)
+    explore(ck, ck.budget(400, 3500), 5000 if thorough else 400, 6 if thorough else 5, 3 if thorough else 2, use_model,
+            n_large=12 if thorough else 3)
     ck.exhaustive = False
     ck.notes.append(f"all n! shuffles forced for n <= {6 if thorough else 5} build points")
     if ck.broken() and not ck.violations:
-        explore(ck, 3000, 300, 5, 2, use_model=False)
+        explore(ck, 3000, 300, 5, 2, use_model=False, n_large=4)
     ck.finish()
 
 
